@@ -716,9 +716,12 @@ func (env *Env) call(e *ast.CallExpr) TV {
 				env.vars[pn] = vals[i]
 			}
 			savedLocals := env.locals
+			savedEntry := env.entryVars
 			env.locals = nil
+			env.entryVars = nil
 			r := env.eval(p.Body)
 			env.locals = savedLocals
+			env.entryVars = savedEntry
 			for _, pn := range p.Params {
 				if had[pn] {
 					env.vars[pn] = saved[pn]
